@@ -32,6 +32,7 @@ DEFAULT_WEIGHTS = {
     "RECREATE": 1,
     "RACE": 0,
     "READ": 0,
+    "CONDRACE": 0,
 }
 
 READ_PATHS = ["/", "/user", "/user/", "/user/calendars", "/user/calendars/", "/user/contacts/", "/user/calendars/c1/", "/user/calendars/c1", "/user/calendars/c2/", "/user/x1/", "/user/calendars/b1/", "/user/calendars/c1/n1/", "/user/contacts/a1/"]
@@ -245,6 +246,9 @@ def program(draw, weights=None, min_steps=8, max_steps=30, prefixes=PREFIXES, se
         elif op == "READ":
             kind = draw(st.sampled_from(["propfind", "propfind", "propfind", "get", "head", "options", "calendar-query", "sync", "multiget-empty"]))
             steps.append({"op": "READ", "fe": fe, "afe": afe, "kind": kind, "path": draw(st.sampled_from(READ_PATHS)), "depth": draw(st.sampled_from([0, 1, 1, "infinity"])), "allprop": draw(st.booleans())})
+        elif op == "CONDRACE":
+            n_ = draw(st.sampled_from(ics_names))
+            steps.append({"op": "CONDRACE", "fe": fe, "afe": afe, "coll": draw(st.sampled_from(["c1", "c1", "b1"])), "name": n_, "ctype": "text/calendar", "method": draw(st.sampled_from(["PUT", "PUT", "DELETE"])), "body": enc_body(draw(st.sampled_from(cal_bodies))["raw"]), "other": enc_body(draw(gen.calendar_object())["raw"])})
         elif op == "RESTART":
             steps.append({"op": "RESTART"})
         wrap_locked(draw, steps, locked_rate)
